@@ -23,6 +23,8 @@ type Spec struct {
 	Require     []string // counters that must be non-zero in the merged result, else inconclusive
 	Workers     int      // 0 = default (16)
 	UsesCur     bool     // write current-case files (cases that can die with a fatal error)
+	// EnvFn returns extra environment variables for the workers, given the run directory.
+	EnvFn func(dir string) []string
 	Run         func(c *Ctx)
 	// Post may inspect the merged result and add inconclusive reasons or violations.
 	Post func(m *Merged)
@@ -65,6 +67,7 @@ type Merged struct {
 	Groups      map[string]int64
 	Exhaustive  map[string]bool
 	Extra       map[string]any
+	Dir         string // run directory (worker logs, race detector logs, ...)
 }
 
 func (m *Merged) Inconclusive(r string) { m.Inconcl = append(m.Inconcl, r) }
@@ -151,6 +154,9 @@ func RunParent(spec *Spec, opt Options) int {
 		}
 		w.cmd = exec.Command(os.Args[0], args...)
 		w.cmd.Env = append(os.Environ(), opt.Env...)
+		if spec.EnvFn != nil {
+			w.cmd.Env = append(w.cmd.Env, spec.EnvFn(dir)...)
+		}
 		lf, _ := os.Create(w.log)
 		w.cmd.Stdout = lf
 		w.cmd.Stderr = lf
@@ -165,7 +171,7 @@ func RunParent(spec *Spec, opt Options) int {
 
 	m := &Merged{Spec: spec, Tier: opt.Tier, Seed: opt.Seed, Counters: map[string]int64{}, Max: map[string]float64{},
 		Distinct: map[uint64]struct{}{}, Sets: map[string]map[string]struct{}{}, Notes: map[string]string{},
-		Groups: map[string]int64{}, Exhaustive: map[string]bool{}, Extra: map[string]any{}}
+		Groups: map[string]int64{}, Exhaustive: map[string]bool{}, Extra: map[string]any{}, Dir: dir}
 	exhaustCount := map[string]int{}
 	deadline := time.After(watchdog)
 	timedOut := false
